@@ -117,7 +117,8 @@ def generate(job: dict) -> dict:
         if job.get("plugins_path"):
             sys.path.insert(0, job["plugins_path"])
         sys.path.insert(0, base)
-        config_dict = {"tool": {"ariadne-codegen": section}}
+        # legacy_section: the deprecated top-level [ariadne-codegen] table instead of [tool.ariadne-codegen]
+        config_dict = {"ariadne-codegen": section} if job.get("legacy_section") else {"tool": {"ariadne-codegen": section}}
         res["config_before"] = json.dumps(config_dict, sort_keys=True, default=str)
         out = io.StringIO()
         import warnings
